@@ -19,6 +19,7 @@ TARGETS = ["s390x-unknown-linux-gnu", "i686-unknown-linux-gnu"]
 FLAGS = "-Zmiri-disable-stacked-borrows -Zmiri-disable-validation"
 TIMEOUT = 40 * 60
 DEFAULT_SEED = 3737842551
+REPO_DEFAULT = "/repo"
 
 
 def harness_error(msg):
@@ -39,9 +40,62 @@ def launch(prop, seed, target, vecs):
     return subprocess.Popen(cmd, cwd=MIRI, env=env, stdout=subprocess.PIPE, stderr=subprocess.PIPE, text=True)
 
 
+CONC_FLAGS = "-Zmiri-preemption-rate=0.2 -Zmiri-disable-stacked-borrows -Zmiri-disable-validation"
+# Shared mutable state written by hand (anything but the once_cell cells, which the C09 engines cover). The pinned
+# tree has none outside the hook module; if some appears, the quick tier of C06 runs the concurrency pass too.
+SHARED_STATE = r"\bMutex\b|\bRwLock\b|static\s+mut\b|UnsafeCell|\bAtomic[A-Z]\w*|thread_local!|Ordering::(Relaxed|Acquire|Release|AcqRel|SeqCst)"
+
+
+def shared_state_constructs():
+    import re
+    repo = os.environ.get("REPO", REPO_DEFAULT)
+    hits = []
+    for root, _, files in os.walk(os.path.join(repo, "src")):
+        for fn in files:
+            if not fn.endswith(".rs") or fn == "verif.rs":
+                continue
+            path = os.path.join(root, fn)
+            try:
+                text = open(path, errors="replace").read()
+            except OSError:
+                continue
+            for m in re.finditer(SHARED_STATE, text):
+                hits.append("%s: %s" % (os.path.relpath(path, repo), m.group(0)))
+    return hits
+
+
+def run_conc(seeds, workload_seed):
+    """Concurrency pass of C06: caller threads inside batch conversions / sums / multiscalar multiplication at
+    the same time, one Miri process per scheduler seed (the Miri seed decides the interleaving: one seed is one
+    repeatable execution)."""
+    env0 = dict(os.environ, CARGO_NET_OFFLINE="true")
+    subprocess.run(["cargo", "+nightly", "miri", "setup"], cwd=MIRI, env=env0, capture_output=True, text=True)
+    procs = []
+    for i, s in enumerate(seeds):
+        env = dict(env0, MIRIFLAGS="-Zmiri-seed=%d %s" % (s, CONC_FLAGS))
+        procs.append((s, time.time(), subprocess.Popen(
+            ["cargo", "+nightly", "miri", "run", "--offline", "--", "conc", str(workload_seed + s), "3"],
+            cwd=MIRI, env=env, stdout=subprocess.PIPE, stderr=subprocess.PIPE, text=True)))
+        if i == 0:
+            time.sleep(20)  # let the first one finish compiling
+    out = []
+    for (s, t0, p) in procs:
+        try:
+            so, se = p.communicate(timeout=TIMEOUT)
+            rc = p.returncode
+        except subprocess.TimeoutExpired:
+            p.kill()
+            so, se = p.communicate()
+            rc, se = 124, se + "\nINVARIANT no_termination"
+        out.append(dict(miri_seed=s, rc=rc, wall_s=round(time.time() - t0, 1), stderr=se[-3000:]))
+    return out
+
+
 def classify(stderr):
     if "INVARIANT " in stderr:
         return stderr.split("INVARIANT ", 1)[1].split()[0].strip("'\",:")
+    if "Data race detected" in stderr:
+        return "data_race"
     if "Undefined Behavior" in stderr:
         return "undefined_behavior"
     return "failure"
@@ -71,6 +125,8 @@ def run(prop, seed, targets):
 def main():
     args = sys.argv[1:]
     prop, seed, replay = None, int(os.environ.get("VERIF_SEED", DEFAULT_SEED)), None
+    conc_seeds = None
+    only_if_shared_state = False
     i = 0
     while i < len(args):
         if args[i] == "--prop":
@@ -79,8 +135,58 @@ def main():
             seed = int(args[i + 1]); i += 2
         elif args[i] == "--replay":
             replay = args[i + 1]; i += 2
+        elif args[i] == "--conc":
+            conc_seeds = int(args[i + 1]); i += 2
+        elif args[i] == "--only-if-shared-state":
+            only_if_shared_state = True; i += 1
         else:
             harness_error("unknown argument " + args[i])
+    if replay and json.load(open(replay)).get("mode") == "conc":
+        rp = json.load(open(replay))
+        res = run_conc([rp["miri_seed"]], rp["seed"])
+        r = res[0]
+        if r["rc"] != 0 and "could not compile" in r["stderr"]:
+            harness_error("Miri build failed: " + r["stderr"][-1500:])
+        if r["rc"] != 0 and classify(r["stderr"]) == rp["invariant"]:
+            print("reproduced: %s under Miri seed %d" % (rp["invariant"], rp["miri_seed"]))
+            print("VIOLATION property=%s replay=%s" % (rp["property"], replay))
+            sys.exit(1)
+        print("replay of %s: the concurrency pass completes under Miri seed %d on this tree" % (replay, rp["miri_seed"]))
+        sys.exit(0)
+    if conc_seeds is not None:
+        if prop != "C06":
+            harness_error("the concurrency pass belongs to C06")
+        hits = shared_state_constructs()
+        if only_if_shared_state and not hits:
+            sys.exit(0)
+        if hits:
+            print("note: the crate contains hand-written shared state (%s%s); running the concurrency pass under Miri" % (", ".join(hits[:3]), " ..." if len(hits) > 3 else ""))
+        res = run_conc(list(range(1, conc_seeds + 1)), seed % 1000003)
+        exit_code = 0
+        for r in res:
+            if r["rc"] != 0:
+                if "could not compile" in r["stderr"]:
+                    harness_error("Miri build failed: " + r["stderr"][-1500:])
+                inv = classify(r["stderr"])
+                path = os.path.join(VERIF, "replays", "C06-%d-concurrency_%s.json" % (seed, inv))
+                json.dump(dict(engine="miri-conv", mode="conc", property="C06", invariant=inv, seed=seed % 1000003, miri_seed=r["miri_seed"],
+                               flags=CONC_FLAGS, detail=r["stderr"][-2500:]), open(path, "w"), indent=1)
+                print("violation found in the concurrency pass under Miri seed %d: %s" % (r["miri_seed"], inv))
+                print("VIOLATION property=C06 replay=%s" % path)
+                exit_code = 1
+                break
+        evp = os.path.join(VERIF, "evidence", "C06.json")
+        if os.path.exists(evp):
+            ev = json.load(open(evp))
+            ev["coverage"]["concurrency_pass"] = dict(
+                program="miri/src/main.rs conc (3 caller threads inside batch conversions, sums, multiscalar multiplication)",
+                miri_seeds=[dict(seed=r["miri_seed"], rc=r["rc"], wall_s=r["wall_s"]) for r in res],
+                shared_state_constructs_in_crate=hits[:10])
+            if exit_code == 1:
+                ev["violations"] = max(1, ev.get("violations", 0))
+            json.dump(ev, open(evp, "w"), indent=1)
+        print("concurrency pass (C06): %d Miri seeds, %d clean" % (len(res), sum(1 for r in res if r["rc"] == 0)))
+        sys.exit(exit_code)
     if replay:
         rp = json.load(open(replay))
         res = run(rp["property"], rp["seed"], [rp["target"]])
